@@ -418,3 +418,82 @@ func init() {
 		return c08NonFiniteVerdict(r.Calls[0].Expr, *r.Calls[0].Doc)
 	}
 }
+
+// C08 (texts outside the grammar): a syntax fault is decided by the text
+// alone. A damaged expression that the reference recognizer places outside
+// the grammar must make Compile fail, MustCompile panic, and one-shot Search
+// fail in the same category on every document -- whatever the documents hold.
+func TestC08_SyntaxTexts(t *testing.T) {
+	c := collector("C08", "syntax-texts")
+	docs := make([]run.Node, 0, len(c08Docs)+2)
+	for _, d := range c08Docs {
+		docs = append(docs, run.FromVal(jv.MustParseJSON(d)))
+	}
+	docs = append(docs, run.FromVal(jv.MustParseJSON(`[1,[2],{"a":3}]`)), run.FromVal(jv.MustParseJSON(`"text"`)))
+	check(t, func(t *rapid.T) {
+		doc := jv.MustParseJSON(c08Docs[0])
+		g := &gen.G{T: t, Root: doc, Cfg: fullCfg()}
+		valid := ast.RenderWith(g.Expr(doc, 0), gen.Chooser{T: t})
+		text, mut := mutate(t, valid)
+		c.Case()
+		pr := ast.Parse(text)
+		if pr.Verdict != ast.Out {
+			c.Skip("still-in-the-grammar-or-undetermined")
+			return
+		}
+		if staticPreemptShape(text) && kfOpen("static-error-preempts-syntax-error") {
+			c.Exclude("static-error-preempts-syntax-error")
+			return
+		}
+		call := run.Call{API: "search", Expr: text, Doc: &docs[0]}
+		run.Watch(c, "syntax-texts", call)
+		if msg := c08SyntaxVerdict(text, docs); msg != "" {
+			c.Fail(t, run.Replay{Check: "syntax-texts", Kind: "custom:c08-syntax", Calls: []run.Call{call}, Message: fmt.Sprintf("not in the grammar (%s): %s", pr.Reason, msg)}, mut)
+			return
+		}
+		c.Label(mut)
+		c.NonTrivial(text, func() any { return map[string]any{"text": text, "damage": mut, "reason": pr.Reason} })
+	})
+}
+
+func c08SyntaxVerdict(text string, docs []run.Node) string {
+	_, co := run.Compile(text)
+	if co.Panic != "" {
+		return "Compile panicked: " + co.Panic
+	}
+	if !co.Failed {
+		return "Compile accepts it"
+	}
+	if co.Cats != model.Syntax {
+		return "Compile fails with " + fmt.Sprint(co.Cats.Names()) + ", not with a syntax error"
+	}
+	if mp, _ := run.MustCompilePanics(text); !mp {
+		return "MustCompile does not panic although Compile fails"
+	}
+	for i, d := range docs {
+		o := run.Search(text, d.Build())
+		if o.Panic != "" {
+			return fmt.Sprintf("Search panicked on document %d: %s", i, o.Panic)
+		}
+		if !o.Failed || o.Cats != model.Syntax {
+			return fmt.Sprintf("Search on document %d does not report the syntax error: %s", i, o)
+		}
+		if o.NonNil {
+			return fmt.Sprintf("Search on document %d returned a non-nil result together with the error", i)
+		}
+	}
+	return ""
+}
+
+func init() {
+	customReplays["custom:c08-syntax"] = func(r run.Replay) string {
+		if len(r.Calls) == 0 {
+			return "malformed replay"
+		}
+		docs := make([]run.Node, 0, len(c08Docs))
+		for _, d := range c08Docs {
+			docs = append(docs, run.FromVal(jv.MustParseJSON(d)))
+		}
+		return c08SyntaxVerdict(r.Calls[0].Expr, docs)
+	}
+}
